@@ -90,8 +90,8 @@ def timing_step(rng, sf, fmt, log):
             log("setkey", sf, k=cps("VERSION"), v=cps(v))
     elif q < 0.60 and fmt == "ssc" and sf.charts:
         j = rng.randrange(len(sf.charts))
-        name = rng.choice(["BPMS", "STOPS", "DELAYS", "WARPS", "OFFSET", "LABELS", "COMBOS", "SCROLLS"])
-        v = rng.choice(SMOOTH[name]) if name in SMOOTH else rng.choice(["", "0=1", "0.000=x"])
+        name = rng.choice(["BPMS", "STOPS", "DELAYS", "WARPS", "OFFSET", "LABELS", "COMBOS", "SCROLLS", "ATTACKS", "DISPLAYBPM", "CREDIT"])
+        v = rng.choice(SMOOTH[name]) if name in SMOOTH else rng.choice(["", "0=1", "0.000=x"])      # (ATTACKS, DISPLAYBPM, CREDIT: not among the eleven)
         sf.charts[j][name] = v
         log("setchartitem", sf, j=j + 1, name=cps(name), v=cps(v))
     elif q < 0.75 and sf.charts:
